@@ -72,3 +72,48 @@ func stressSyncMap(plan []M, out *Out, _ []string) {
 		}
 	}
 }
+
+// Free-running sync2.Set stress for the race detector (no shared harness state between the goroutines).
+func init() { comps["syncset-stress"] = stressSyncSet }
+
+func stressSyncSet(plan []M, out *Out, _ []string) {
+	for _, p := range plan {
+		nt, nops, nk, rounds := num(p, "threads"), num(p, "ops"), num(p, "keys"), num(p, "rounds")
+		for r := 0; r < rounds; r++ {
+			st := &sync2.Set[int]{}
+			arg := sync2.NewSetFromSlice([]int{1, 2})
+			var wg sync.WaitGroup
+			start := make(chan struct{})
+			for t := 1; t <= nt; t++ {
+				wg.Add(1)
+				go func(t int) {
+					defer wg.Done()
+					rng := rand.New(rand.NewSource(int64(num(p, "seed")*100000 + r*100 + t)))
+					<-start
+					for i := 0; i < nops; i++ {
+						k := 1 + rng.Intn(nk)
+						switch rng.Intn(7) {
+						case 0:
+							st.Add(k)
+						case 1:
+							st.Remove(k)
+						case 2:
+							st.Has(k)
+						case 3:
+							st.Len()
+						case 4:
+							st.AddSet(arg)
+						case 5:
+							st.RemoveSet(arg)
+						case 6:
+							_ = st.Slice()
+						}
+					}
+				}(t)
+			}
+			close(start)
+			wg.Wait()
+			out.Emit(M{"ev": "round", "round": r})
+		}
+	}
+}
